@@ -131,6 +131,19 @@ def generate(rng, tier):
         for runs in ([[c, ATTS3[0]]], [[c + c, ATTS3[1]]], [["a", ATTS3[0]], [c, ATTS3[1]]], [[c, ATTS3[0]], [WIDE, ATTS3[2]]],
                      [["a" + c, ATTS3[0]]], [["", ATTS3[0]], [c, ATTS3[1]], ["b", ATTS3[2]]]):
             yield {"runs": [list(r) for r in runs], "queries": all_queries("".join(t for t, _ in runs))}
+    # values reached through the wrapping API: every line of width_aware_splitlines(2..4) of short strings in which
+    # a wide character is pushed to the next line (the line then ends in a padding space) or not
+    for n in range(2, 5):
+        for tup in itertools.product(ALPHA, repeat=n):
+            s = "".join(tup)
+            if WIDE not in s:
+                continue
+            runs = [[s[:1], ATTS3[1]], [s[1:], ATTS3[2]]]
+            for cols in (2, 3):
+                for k in (0, 1):
+                    w = sum(max(wcwidth(c), 0) for c in s)
+                    qs = [["width"], ["at", 1], ["slice", 0, cols], ["slice", 1, cols + 1], ["slice", 0, 1]]
+                    yield {"runs": [list(r) for r in runs], "queries": qs, "via": ["wrap", cols, k]}
     nrand = 6000 if tier == "thorough" else 300
     alpha_ok = "ab " + WIDE * 3 + COMB * 2 + "中́x"
     for k in range(nrand):
@@ -143,8 +156,28 @@ def generate(rng, tier):
 
 
 # ---------------------------------------------------------------------------------------------
-def run(inp):
+def subject(inp):
+    """the FmtStr the queries are put to: the value built from the runs, or -- "via": ["wrap", columns, k] -- the k-th
+    line that width_aware_splitlines(columns) makes of it (a value REACHED THROUGH that API keeps whatever the
+    wrapping code memoised on its runs; the queries are judged on the line's own runs)"""
     f = canon.build_fs(inp["runs"])
+    via = inp.get("via")
+    if via:
+        lines = list(f.width_aware_splitlines(via[1]))
+        if via[2] < len(lines):
+            f = lines[via[2]]
+    return f
+
+
+def run(inp):
+    f = subject(inp)
+    outs = _run(inp, f)
+    if inp.get("via"):
+        outs.append(["subject", canon.canon_fs(f)])
+    return outs
+
+
+def _run(inp, f):
     outs = []
     for q in inp["queries"]:
         if q[0] == "width":
@@ -187,7 +220,9 @@ def to_coq(inp, out):
             ix = ("IxSlice %s %s" % (coq_opt(q[1], coq_z), coq_opt(q[2], coq_z))) if q[0] == "slice" \
                 else "IxInt %s" % coq_z(q[1])
             qs.append("QSlice (%s) %s" % (ix, coq_res(o, coq_fs)))
-    return "(%s, %s, %s)" % (widths_literal(chars), coq_fs(inp["runs"]), coq_list(qs))
+    runs = out[len(inp["queries"])][1] if inp.get("via") else inp["runs"]
+    chars |= set("".join(t for t, _ in runs))
+    return "(%s, %s, %s)" % (widths_literal(chars), coq_fs(runs), coq_list(qs))
 
 
 def to_json_input(inp):
@@ -199,11 +234,14 @@ def to_json_output(out):
 
 
 def from_json(obj):
-    return {"runs": obj["runs"], "queries": obj["queries"]}
+    d = {"runs": obj["runs"], "queries": obj["queries"]}
+    if obj.get("via"):
+        d["via"] = obj["via"]
+    return d
 
 
 def key(inp):
-    return repr((inp["runs"], inp["queries"]))
+    return repr((inp["runs"], inp["queries"], inp.get("via")))
 
 
 def nontrivial(inp, out):
